@@ -564,10 +564,18 @@ impl FatVolume {
     {
         match &self.fat_specific_info {
             FatSpecificInfo::Fat16(fat16_info) => {
-                self.iterate_fat16(dir_info, fat16_info, block_cache, |de, _| func(de))
+                self.iterate_fat16(dir_info, fat16_info, block_cache, |de, odde| {
+                    if odde.is_valid() {
+                        func(de)
+                    }
+                })
             }
             FatSpecificInfo::Fat32(fat32_info) => {
-                self.iterate_fat32(dir_info, fat32_info, block_cache, |de, _| func(de))
+                self.iterate_fat32(dir_info, fat32_info, block_cache, |de, odde| {
+                    if odde.is_valid() {
+                        func(de)
+                    }
+                })
             }
         }
     }
@@ -666,7 +674,11 @@ impl FatVolume {
         match &self.fat_specific_info {
             FatSpecificInfo::Fat16(fat16_info) => {
                 self.iterate_fat16(dir_info, fat16_info, block_cache, |de, odde| {
-                    if let Some((start, this_seqno, csum, buffer)) = odde.lfn_contents() {
+                    if !odde.is_valid() {
+                        // a deleted slot ends whatever run came before it
+                        lfn_buffer.clear();
+                        seq_state = SeqState::Waiting;
+                    } else if let Some((start, this_seqno, csum, buffer)) = odde.lfn_contents() {
                         seq_state = seq_state.update(lfn_buffer, start, this_seqno, csum, buffer);
                     } else {
                         if let SeqState::Complete { csum } = seq_state {
@@ -687,7 +699,11 @@ impl FatVolume {
             }
             FatSpecificInfo::Fat32(fat32_info) => {
                 self.iterate_fat32(dir_info, fat32_info, block_cache, |de, odde| {
-                    if let Some((start, this_seqno, csum, buffer)) = odde.lfn_contents() {
+                    if !odde.is_valid() {
+                        // a deleted slot ends whatever run came before it
+                        lfn_buffer.clear();
+                        seq_state = SeqState::Waiting;
+                    } else if let Some((start, this_seqno, csum, buffer)) = odde.lfn_contents() {
                         seq_state = seq_state.update(lfn_buffer, start, this_seqno, csum, buffer);
                     } else {
                         if let SeqState::Complete { csum } = seq_state {
@@ -746,7 +762,9 @@ impl FatVolume {
                     if dir_entry.is_end() {
                         // Can quit early
                         return Ok(());
-                    } else if dir_entry.is_valid() {
+                    } else {
+                        // Deleted slots are passed on as well: they matter to
+                        // whoever tracks long-file-name runs.
                         // Safe, since Block::LEN always fits on a u32
                         let start = (i * OnDiskDirEntry::LEN) as u32;
                         let entry = dir_entry.get_entry(FatType::Fat16, block_idx, start);
@@ -797,7 +815,9 @@ impl FatVolume {
                     if dir_entry.is_end() {
                         // Can quit early
                         return Ok(());
-                    } else if dir_entry.is_valid() {
+                    } else {
+                        // Deleted slots are passed on as well: they matter to
+                        // whoever tracks long-file-name runs.
                         // Safe, since Block::LEN always fits on a u32
                         let start = (i * OnDiskDirEntry::LEN) as u32;
                         let entry = dir_entry.get_entry(FatType::Fat32, block_idx, start);
